@@ -1,8 +1,191 @@
 import Drv.Base
-open Lean Pdt
-namespace Drv
+import PdtModel.Model.Load
+open Lean Pdt Pdt.Load
+namespace Drv.Ld
 
-/-- op handler of the `Load` layer (stub until the layer is built) -/
-def handleLoad (_op : String) (_j : Json) : Option (Except String Json) := none
+/-! JSON codec of the `Load` layer.
+
+  op "load":  {"nodes": [{"loc": n, "kind": "folder", "children": [[name, matches], …]}
+                        | {"loc": n, "kind": "file", "sheets": [{"name": null|str, "use": bool, "rows": [[cell…]…]}…]}
+                        | {"loc": n, "kind": "unreadable"}],
+               "protocols": null | [[name, loaderNo], …],
+               "resolve": [[loaderNo, spec, srcLoc|null, loc|null], …],
+               "roots": [spec…], "raising": bool, "allow_include": bool, "order": "lifo"|"fifo"}
+  The resolution table must cover every (loader, specification, source) the run can ask for — that is checked
+  before the run and answered with a protocol error otherwise (no default value is ever made up).
+-/
+
+def excName : Exc → String
+  | .loadError => "LoadError"
+  | .inputError => "InputError"
+  | .fileNotFound => "FileNotFoundError"
+  | .valueError => "ValueError"
+
+def optNat : Option Nat → Json
+  | none => Json.null
+  | some n => nat n
+
+def optStr : Option Str → Json
+  | none => Json.null
+  | some s => str s
+
+def getOptNat (j : Json) : Except String (Option Nat) :=
+  match j with
+  | .null => pure none
+  | _ => do let n ← j.getNat?; pure (some n)
+
+def getOptStr (j : Json) : Except String (Option Str) :=
+  match j with
+  | .null => pure none
+  | _ => do let s ← j.getStr?; pure (some s.toList)
+
+/-- a directive line the loader turns into a specification must be a text cell (assumption of C16/C18) -/
+def checkDirectiveLines (rows : List Row) : Except String Unit :=
+  (segment rows).forM fun b =>
+    if b.ty = .directive then
+      b.rows.forM fun r => match r with
+        | .str _ :: _ => pure ()
+        | _ => throw "directive row whose first cell is not text: outside the modelled domain"
+    else pure ()
+
+def sheetOfJson (j : Json) : Except String Sheet := do
+  let name ← getOptStr (← j.getObjVal? "name")
+  let use ← getBool j "use"
+  let rows ← rowsOfJson (← j.getObjVal? "rows")
+  checkDirectiveLines rows
+  pure (Sheet.ofRows name use rows)
+
+def nodeOfJson (j : Json) : Except String (Loc × Node) := do
+  let loc ← getNat j "loc"
+  let kind ← (← j.getObjVal? "kind").getStr?
+  match kind with
+  | "folder" => do
+    let ch ← (← getArr j "children").mapM fun c => do
+      let a ← c.getArr?
+      match a.toList with
+      | [n, m] => do pure ((← n.getStr?).toList, (← m.getBool?))
+      | _ => throw "bad child"
+    pure (loc, .folder ch)
+  | "file" => do
+    let sh ← (← getArr j "sheets").mapM sheetOfJson
+    pure (loc, .file sh)
+  | "unreadable" => pure (loc, .unreadable)
+  | _ => throw s!"unknown node kind {kind}"
+
+abbrev ResTab := List ((Nat × Str × Option Loc) × Option Loc)
+
+def resRowOfJson (j : Json) : Except String ((Nat × Str × Option Loc) × Option Loc) := do
+  let a ← j.getArr?
+  match a.toList with
+  | [h, s, src, r] => do
+    pure ((← h.getNat?, (← s.getStr?).toList, ← getOptNat src), ← getOptNat r)
+  | _ => throw "bad resolve row"
+
+def resLookup (t : ResTab) (h : Nat) (s : Str) (src : Option Loc) : Option (Option Loc) :=
+  match t with
+  | [] => none
+  | (k, v) :: rest => if k = (h, s, src) then some v else resLookup rest h s src
+
+def worldOfJson (j : Json) : Except String (World × ResTab) := do
+  let nodes ← (← getArr j "nodes").mapM nodeOfJson
+  let protocols ← match (← j.getObjVal? "protocols") with
+    | .null => pure none
+    | p => do
+      let a ← p.getArr?
+      let l ← a.toList.mapM fun e => do
+        let x ← e.getArr?
+        match x.toList with
+        | [n, h] => do pure ((← n.getStr?).toList, (← h.getNat?))
+        | _ => throw "bad protocol entry"
+      pure (some l)
+  let tab ← (← getArr j "resolve").mapM resRowOfJson
+  let w : World := { nodes := nodes, protocols := protocols,
+                     resolve := fun h s src => (resLookup tab h s src).getD none }
+  pure (w, tab)
+
+/-- every question the run can put to the resolution table -/
+def demands (w : World) (allow : Bool) (roots : List Str) : List (Str × Option Loc) :=
+  roots.map (fun s => (s, none)) ++
+  w.nodes.flatMap (fun p => (nodePushes allow p.1 (.root []) p.2).map (fun it => (it.spec, it.srcLoc)))
+
+def checkTable (w : World) (tab : ResTab) (allow : Bool) (roots : List Str) : Except String Unit :=
+  (demands w allow roots).forM fun d =>
+    match resLookup tab (handlerFor w d.1) d.1 d.2 with
+    | some _ => pure ()
+    | none => throw s!"resolution table has no entry for loader {handlerFor w d.1} spec {String.ofList d.1} source {d.2}"
+
+def btName : BT → String
+  | .directive => "DIRECTIVE"
+  | .table => "TABLE"
+  | .template => "TEMPLATE_ROW"
+  | .metadata => "METADATA"
+  | .blank => "BLANK"
+
+def anchorToJson (a : Anchor) : Json :=
+  arr [nat a.loc, match a.pos with
+    | none => Json.null
+    | some (sh, r) => arr [optStr sh, nat r]]
+
+def historyToJson (it : Item) : Json :=
+  arr (it.history.map fun (s, a) => arr [str s, match a with | none => Json.null | some a => anchorToJson a])
+
+def outToJson (o : Out) : Json :=
+  Json.mkObj [("loc", nat o.loc), ("sheet", optStr o.sheet), ("row", nat o.blk.row),
+              ("ty", btName o.blk.ty), ("name", str o.blk.name),
+              ("lines", arr (o.blk.lines.map str)), ("history", historyToJson o.item)]
+
+def issueToJson : Issue → Json
+  | .dup l it => arr ["dup", nat l, str it.spec, optNat it.srcLoc]
+  | .resolveFail it => arr ["resolve", str it.spec, optNat it.srcLoc]
+
+def statusToJson : Status → Json
+  | .running => "running"
+  | .done => "done"
+  | .outOfFuel => "outOfFuel"
+  | .raised e => exc (excName e)
+
+def cfgOfJson (j : Json) : Except String Cfg := do
+  let raising ← getBool j "raising"
+  let allow ← getBool j "allow_include"
+  let order ← (← j.getObjVal? "order").getStr?
+  let pick ← match order with
+    | "lifo" => pure pickLast
+    | "fifo" => pure pickFirst
+    | _ => throw s!"unknown order {order}"
+  pure ⟨raising, allow, pick⟩
+
+end Drv.Ld
+
+namespace Drv
+open Drv.Ld
+
+def handleLoad (op : String) (j : Json) : Option (Except String Json) :=
+  match op with
+  | "load" => some do
+    let (w, tab) ← worldOfJson j
+    let cfg ← cfgOfJson j
+    let roots ← (← getArr j "roots").mapM fun r => do pure (← r.getStr?).toList
+    checkTable w tab cfg.allowInclude roots
+    let (st, status) := loadFiles w cfg roots
+    pure (Json.mkObj [("status", statusToJson status),
+                      ("out", arr (st.out.map outToJson)),
+                      ("visited", arr (st.visited.map nat)),
+                      ("issues", arr (st.issues.map issueToJson)),
+                      ("pending", nat st.stack.length),
+                      ("fuel", nat (fuelBound w cfg.allowInclude roots))])
+  | "dispatch" => some do
+    let add ← (← getArr j "additional").mapM fun e => do
+      let x ← e.getArr?
+      match x.toList with
+      | [n, h] => do pure ((← n.getStr?).toList, (← h.getNat?))
+      | _ => throw "bad protocol entry"
+    let spec ← getStr j "spec"
+    pure (nat (dispatch (handlersOf add) spec))
+  | "sheet_blocks" => some do
+    let rows ← rowsOfJson (← j.getObjVal? "rows")
+    pure (arr ((Sheet.ofRows none true rows).blocks.map fun b =>
+      Json.mkObj [("ty", btName b.ty), ("row", nat b.row), ("name", str b.name),
+                  ("lines", arr (b.lines.map str))]))
+  | _ => none
 
 end Drv
